@@ -263,10 +263,10 @@ def segment_index_mapping(F, R):
     # try_send / reclaim compute index = offset / sample_size
     for m in ('try_send', 'reclaim'):
         for f in F.find_fns(r'^<' + re.escape(Z) + r'Sender<.*> as iceoryx2_cal::zero_copy_connection::ZeroCopySender>::' + m + '$'):
-            divs = [s for s in f.sites if s.i != 'T' and s.node[0] == 'a' and s.node[2][0] == 'bin' and s.node[2][1] == 'Div']
+            divs = [s for g_ in lib.family(F, f) for s in g_.sites if s.i != 'T' and s.node[0] == 'a' and s.node[2][0] == 'bin' and s.node[2][1] == 'Div']
             for s in divs:
-                a, b_ = sym_nstr(sym(f, s.node[2][2])), sym_nstr(sym(f, s.node[2][3]))
-                R.ob('SYM-EQ', key + '::%s-index=offset/sample_size' % m, 'offset' in a.lower() and 'sample_size' in b_, '%s: chunk index = %s / %s' % (m, a[:80], b_[:80]), s.where, f)
+                a, b_ = sym_nstr(sym(s.fn, s.node[2][2])), sym_nstr(sym(s.fn, s.node[2][3]))
+                R.ob('SYM-EQ', key + '::%s-index=offset/sample_size' % m, 'offset' in a.lower() and 'sample_size' in b_, '%s: chunk index = %s / %s' % (m, a[:80], b_[:80]), s.where, s.fn)
             R.ob('FLOOR', 'floor::%s::index computations' % fnkey(f), len(divs) >= 1, '%d index computations' % len(divs), f.file, f)
 
 
